@@ -40,7 +40,7 @@ PRI_CHEAP, PRI_CORE, PRI_EXT, PRI_SWEEP = 0, 1, 2, 3
 CHEAP_OPS = (OP_ADD, OP_SUB, OP_CHK, OP_RT)
 # plain-build milliseconds of multiplication work per (configuration, built-in curve); case counts
 # follow from this through a fixed cost model (no clock is read)
-BUDGET_MS = {"quick": 400.0, "thorough": 600.0}
+BUDGET_MS = {"quick": 400.0, "thorough": 500.0}
 MIN_MULT_CASES = 4
 LOAD_LIMIT_MS = {"quick": 6000.0, "thorough": 20000.0}
 CRASH_LIMIT = 3           # crashes per (job, build, entry point, behaviour class) before the class is no longer fed
@@ -784,7 +784,7 @@ def gen_syn(job):
 
     # twin multiplication: every A with B in a set of relations x scalar grid
     grid = []
-    for k in ((0, 1, 2, n - 1, n, n + 1) if tier == "quick" else (0, 1, 2, 3, n - 1, n, n + 1, N, (n + 1) // 2, 5)):
+    for k in ((0, 1, 2, n - 1, n, n + 1) if (tier == "quick" or p > 60) else (0, 1, 2, 3, n - 1, n, n + 1, N, (n + 1) // 2, 5)):
         if k not in grid and 0 <= k <= kmax:
             grid.append(k)
     for m in pads:
@@ -981,6 +981,8 @@ def select_cases(g, info, cfg_i):
             turn = (cfg_i + g["sid"]) % (8 if tier == "quick" else 6) == 0
             if not (natural8 or turn):
                 return [], None
+        elif tier == "thorough" and (cfg_i + g["sid"]) % 2:
+            return [], None         # small groups: every other configuration (about 90 configurations each)
         pad = info.digit_bits if info.digit_bits > g["m"] else g["m"]
         return [cs for cs in g["cases"] if cs[5] == g["m"] or cs[5] == pad], None
     bits = g["bits"]
